@@ -196,6 +196,8 @@ func (t *textFlow) walkCall(cl *ssa.Call, idx int, d int) {
 		return
 	case "os.ReadFile":
 		return
+	case "(*github.com/spf13/pflag.FlagSet).GetString", "os.Getenv", "os.LookupEnv", "os.Getwd", "os.UserHomeDir":
+		return // sources: a flag's value, the environment
 	}
 	// call through a func-typed parameter: the identity resolver idiom
 	if prm, ok := resolve(cl.Call.Value).(*ssa.Parameter); ok && !cl.Call.IsInvoke() {
@@ -359,6 +361,44 @@ func ruleOU4(c *Ctx) {
 				}
 				c.bad(c.Name(g), construct, c.Pos(st.Pos()), "replay stores a "+fl+" that is not the payload's field: "+c.canon(st.Val))
 			})
+		}
+	}
+	// outside replay nobody rewrites the title or body of an item of the replayed graph (a read command that "cleans"
+	// the text before showing it changes what --json returns); filling in a Task built in the same function is fine
+	{
+		inReplay := map[*ssa.Function]bool{}
+		if re := c.anchor("replayEvents"); re != nil {
+			for g := range c.F.TransitiveCallees(re) {
+				inReplay[g] = true
+			}
+		}
+		k := 0
+		for _, g := range c.Fns {
+			if !c.InModule(g) || g.Blocks == nil || inReplay[g] || inReplay[Outermost(g)] {
+				continue
+			}
+			eachInstr(g, func(r instrRef) {
+				st, ok := r.In.(*ssa.Store)
+				if !ok {
+					return
+				}
+				fa, ok := st.Addr.(*ssa.FieldAddr)
+				if !ok || namedTypeName(fa.X.Type()) != "ergo.Task" {
+					return
+				}
+				fl := fieldName(fa.X.Type(), fa.Field)
+				if fl != "Title" && fl != "Body" {
+					return
+				}
+				if al, isAl := strip(fa.X).(*ssa.Alloc); isAl && al.Parent() == g {
+					return // a Task literal under construction
+				}
+				k++
+				c.bad(c.Name(g), fmt.Sprintf("rewrites Task.%s#%d", fl, k), c.Pos(st.Pos()), "the "+strings.ToLower(fl)+" of an item of the replayed graph is overwritten outside replay ("+c.canon(st.Val)+"): what this command shows or records is no longer the text that was stored, character for character")
+			})
+		}
+		if k == 0 {
+			c.ok("<module>", "text-not-rewritten-outside-replay", "-", "no store into Task.Title/Task.Body outside replay (other than literals under construction)")
 		}
 	}
 	// JSON show output: Title/Body are loads of the task's fields
